@@ -762,7 +762,7 @@ func (r confirmed) report(mon *lib.Monitor) {
 }
 
 func newLatencyMonitor(res *lib.Result) *lib.Monitor {
-	return res.Monitor("writers-and-subscribers", "real Value/Collection with real Pull subscribers: with an idle lossy subscriber every Set/Update/Delete returns (bound 2s, latencies recorded) and on reading the subscriber gets the most recent value / a per-id chained stream folding to List; with backpressure Set does not return before the subscriber receives, and nothing is dropped or reordered while it keeps receiving; subscriber churn while a write is parked in Bus.Send behind a non-receiving backpressure subscriber (another subscription cancelled, a new one opened): the new subscriber receives the later writes (latest if lossy, all in order with backpressure); free-running stress (one writer at full speed, a lossy subscriber with seeded random pauses): the received stream chains per id / is in write order and ends, after a fence, in the collection's view / the last value; thorough: a never-read backpressured Pull makes Set return an error after ~5s; every wait is bounded (1.5-6s) and a failing scenario is re-run twice; distinct = scenario and seed")
+	return res.Monitor("writers-and-subscribers", "real Value/Collection with real Pull subscribers: with an idle lossy subscriber every Set/Update/Delete returns (bound 2s, latencies recorded) and on reading the subscriber gets the most recent value / a per-id chained stream folding to List; with backpressure Set does not return before the subscriber receives, and nothing is dropped or reordered while it keeps receiving; subscriber churn while a write is parked in Bus.Send behind a non-receiving backpressure subscriber (another subscription cancelled, a new one opened): the new subscriber receives the later writes (latest if lossy, all in order with backpressure); free-running stress (one writer at full speed, a lossy subscriber with seeded random pauses): the received stream chains per id / is in write order and ends, after a fence, in the collection's view / the last value; the subscriber's backpressure setting also given as an option LIST whose last element decides ([f], [t,f], [f,t,f], [t,t,f,f] for the idle lossy scenarios, [f,t], [t,f,t] for the backpressured one); AT SCALE: a lossy Pull nobody receives from while 2500 (thorough 12000) DISTINCT ids are added and half as many updates/deletes are made on top — every write returns (blocked = no write completed for 3 s), on reading on the stream chains per id and folds to List; thorough: a never-read backpressured Pull makes Set return an error after ~5s; every wait is bounded (1.5-6s) and a failing scenario is re-run twice; distinct = scenario and seed")
 }
 
 // runLatencyCases runs next to the other families (it mostly waits); returns the latencies to record.
